@@ -18,3 +18,26 @@ Lemma failed_example :
   map o_avail (skipn 10 (model_run w_failed)) = [true; false; false; false; false; false] /\
   map (fun q => fst (fst (fst q))) (concat (map o_newreqs (model_run w_failed))) = [QSub; QSub; QRenew; QRenew; QSub].
 Proof. vm_compute. repeat split; reflexivity. Qed.
+
+(* two services granted 200 s and 150 s, answered 10 s and 25 s into the subscribe call; first renewal pass at t = 90: the
+   first renewal is answered after 20 s with a new SID, the second refused after 25 s and the fresh SUBSCRIBE answered
+   10 s later with an infinite timeout (longest wait 55 s <= tolerance); second pass at t = 230: a TIMEOUT-less 200 and,
+   40 s later, a SID-less 200 granting 121 s (> 60 + 55); third pass under way at t = 291 *)
+Definition w_alive2 : input :=
+  mkInput [true; false; true]
+    [ASubscribe true; AIter; AAdvance 10; ADeliver 0%nat (RAccept SidFresh (GSecs 200)); AIter; AAdvance 15;
+     ADeliver 1%nat (RAccept SidFresh (GSecs 150)); AIter;
+     AIter; AAdvance 1000; AIter; AIter;
+     AAdvance 20; ADeliver 2%nat (RAccept SidFresh (GSecs 200)); AIter; AAdvance 25; ADeliver 3%nat RRefuse; AIter; AAdvance 10;
+     ADeliver 4%nat (RAccept SidFresh GInfinite); AIter;
+     AAdvance 1000; AIter; AIter; ADeliver 5%nat (RAccept SidEcho GAbsent); AIter; AAdvance 40;
+     ADeliver 6%nat (RAccept SidNone (GSecs 121)); AIter; AAdvance 5000; AIter; AIter].
+
+Lemma alive2_example :
+  in_domain w_alive2 = true /\ lapse_premise w_alive2 = true /\ g_maxdur (run w_alive2) = 55 /\
+  map (fun q => (fst (fst (fst q)), snd (fst q))) (concat (map o_newreqs (model_run w_alive2))) =
+    [(QSub, None); (QSub, None); (QRenew, Some 0%nat); (QRenew, Some 1%nat); (QSub, None); (QRenew, Some 2%nat);
+     (QRenew, Some 3%nat); (QRenew, Some 2%nat)] /\
+  o_now (last (model_run w_alive2) snap0) = 291 /\
+  o_live (last (model_run w_alive2) snap0) = [(1%nat, Some 175); (2%nat, Some 770); (3%nat, Some 391)].
+Proof. vm_compute. repeat split; reflexivity. Qed.
